@@ -367,9 +367,14 @@ def h_untilev(cfg):
         else:
             E = env.event()
 
+            valobj = Boom(v[0])       # 'excvalue': an exception instance used as an ordinary value of a successful event
+
             def failer():
                 yield env.timeout(d[0])
-                E.fail(Boom(v[0]))
+                if what == 'excvalue':
+                    E.succeed(valobj)
+                else:
+                    E.fail(Boom(v[0]))
                 log.append(('failed', env.now))
 
             def waiter():
@@ -386,7 +391,15 @@ def h_untilev(cfg):
             env.process(failer())
             env.process(waiter())
             try:
-                if variant == 'split':
+                if variant == 'split' and what == 'excvalue':
+                    try:
+                        r = env.run(until=E)
+                        check('c03.until-event-value', r is valobj, type(r).__name__)
+                        check('c03.until-event-returns-at-its-instant', eq(env.now, d[0]))
+                        cover('until-event-with-exception-object-as-value')
+                    except Boom:
+                        fail('c03.until-event-value', 'run(until=event) raised the value of a successful event')
+                elif variant == 'split':
                     try:
                         env.run(until=E)
                         fail('c03.until-failed-event-raises', 'returned normally')
@@ -490,7 +503,7 @@ def jobs(tier, seed):
     for plan in ([['until', 1], ['until', 2]], [['step', 2], ['until', 3]], [['until', 2], ['step', 3]]):
         js.append({'harness': 'net', 'cfg': {'n': 2, 'sorts': 'int', 'plan': plan}, 'weight': 300})
     js.append({'harness': 'hubnet', 'cfg': {'names': ['alpha', 'bravo', 'charlie', 'delta-4', 'e'], 'n': 2}, 'weight': 5})
-    for what in ('and', 'or', 'fail'):
+    for what in ('and', 'or', 'fail', 'excvalue'):
         for sorts in ('int', 'real'):
             js.append({'harness': 'untilev', 'cfg': {'what': what, 'sorts': sorts}, 'weight': 20})
     combos = [([['until', 2], ['step', 30]], 'sched'), ([['step', 40]], 'port'), ([['step', 12], ['until', 3]], 'both')]
